@@ -27,7 +27,35 @@ def contracts():
     cs.append(Contract(target=f"{PM}::PathsManager.get_identified_paths_in", interface=True, types={"nps": "val", "paths": "val"}, ensures={},
                        returns="expr:self.g_idpaths", class_fields=CF,
                        assumptions=["get_identified_paths_in(name) is the group's members in stored order, each paired with the identity its outer comment gives it "
-                                    "(MetadataParser: bounded in C15; CsvPath.identity: own contract)"]))
+                                    "(its body is under contract below, variant given_paths: one fresh CsvPath per member; MetadataParser: bounded in C15; CsvPath.identity: own contract)"]))
+    # ---- get_identified_paths_in itself (the [A] interface above is what its callers see; this is its body)
+    CF["CsvPath"].update({"g_pristine": "bool", "g_id_text": "optstr"})
+    cs.append(Contract(target=f"{CP}::CsvPath.__init__", interface=True, variant="bare", types={}, modifies=["self.g_pristine"],
+                       ensures={"pristine": "self.g_pristine == True"}, returns="none", class_fields=CF,
+                       assumptions=["CsvPath() starts with empty metadata (no identity)"]))
+    cs.append(Contract(target="csvpath/util/metadata_parser.py::MetadataParser.extract_metadata", interface=True, variant="names_the_instance",
+                       types={"instance": "obj:CsvPath", "csvpath": "str"}, requires=["instance.g_pristine"],
+                       modifies=["instance.g_pristine", "instance.g_id_text"],
+                       ensures={"used": "instance.g_pristine == False", "identity_from_this_text_only": "same(instance.g_id_text, ufun_val('identity_in', csvpath))"},
+                       returns="str", class_fields=CF,
+                       assumptions=["MetadataParser.extract_metadata(instance, text) on an instance with EMPTY metadata leaves it with the identity text's own outer comment gives "
+                                    "(a function of the text alone: ufun identity_in); on a used instance fields of earlier texts would remain, hence the requires (MetadataParser: bounded in C15)"]))
+    cs.append(Contract(target=f"{CP}::CsvPath.identity", interface=True, variant="as_a_ghost", types={}, ensures={}, returns="expr:self.g_id_text", class_fields=CF,
+                       assumptions=["CsvPath.identity reads the id/name metadata field (own contract: CsvPath.identity, precedence id>Id>ID>name>Name>NAME)"]))
+    cs.append(Contract(
+        target=f"{PM}::PathsManager.get_identified_paths_in", variant="given_paths", types={"nps": "str", "paths": "list[str]"},
+        list_literals={"idps": "objlist[IdPath]"}, stub_new=["MetadataParser"],
+        callee_variants={"CsvPath.__init__": "bare", "MetadataParser.extract_metadata": "names_the_instance", "CsvPath.identity": "as_a_ghost"},
+        ensures={"one_pair_per_member_in_stored_order": "len(result) == len(paths) and forall_int(0, len(paths), lambda k: result[k].t1 == paths[k])",
+                 "each_paired_with_the_identity_its_own_comment_gives_it": "forall_int(0, len(paths), lambda k: same(result[k].t0, ufun_val('identity_in', paths[k])))"},
+        invariants={0: ["len(idps) == _i0", "forall_int(0, _i0, lambda j: idps[j].t1 == paths[j])",
+                        "forall_int(0, _i0, lambda j: same(idps[j].t0, ufun_val('identity_in', paths[j])))"]},
+        # (c is made inside the loop; naming its ghost fields here means that a version which makes it once, before the loop, is havocked at the loop head
+        #  and fails the requires of extract_metadata instead of leaving the subset)
+        loop_havoc={0: ["idps", "c.g_pristine", "c.g_id_text"]},
+        class_fields=CF, macros=MACROS, returns="objlist[IdPath]", native={"skip": True},
+        property_clauses={"one_pair_per_member_in_stored_order": "C12", "each_paired_with_the_identity_its_own_comment_gives_it": "C12"},
+        doc={"each_paired_with_the_identity_its_own_comment_gives_it": "C12: ''name#id' and '$name.csvpaths.id' return exactly the member with that identity' -- a member's identity comes from its own comment, never from a neighbour's"}))
     cs.append(Contract(
         target=f"{PM}::PathsManager._find_one", types={"npn": "str", "identity": "str"},
         raises={"InputException": {"when": "forall_int(0, %s, lambda j: not (self.g_idpaths[j].t0 == identity))" % n, "exact": True}},
@@ -93,7 +121,8 @@ def contracts():
 
 LEVEL = "other"
 EXPLANATION = ("Proved: _find_one / _get_from / _get_to select exactly the member, the suffix and the prefix by first matching identity (loops with invariants over "
-               "an unbounded member list), CsvPath.identity's precedence, and PathsRegistrar.metadata_update writing one manifest entry per change of the LAST "
+               "an unbounded member list), get_identified_paths_in pairs every member, in stored order, with the identity of its OWN comment (a fresh CsvPath per member), "
+               "CsvPath.identity's precedence, and PathsRegistrar.metadata_update writing one manifest entry per change of the LAST "
                "fingerprint. Bounded: add / re-add / replace / remove / new-instance sequences and round trips on the real PathsManager.")
 
 
